@@ -14,9 +14,9 @@ BOUNDS = ("one cross-thread call per obligation; base with 2 priorities holding 
           "{NULL, 0, 1 s, 7.25 s} (earlier and later than what the loop sleeps for); one loop pass (EVLOOP_ONCE)")
 OUT = ("REAL INTERLEAVINGS AND DATA RACES ARE NOT DECIDED: each thread's steps between two lock operations run atomically, the second "
        "thread only runs at points where the loop thread holds no lock; no ThreadSanitizer-style exploration; evbuffer/bufferevent "
-       "cross-thread use; spurious condition-variable wake-ups (event_del waits once, not in a loop: with a condition variable that may "
-       "wake spuriously, as POSIX allows, event_del could return while the callback still runs -- recorded as a remark, not checked); "
-       "a th_notify_fn that fails hard leaves is_notify_pending set (later notifications are suppressed) -- not checked")
+       "cross-thread use; a th_notify_fn that fails hard leaves is_notify_pending set (later notifications are suppressed) -- not checked. "
+       "Spurious condition-variable wake-ups are outside the ordinary obligations (assumption) and recorded as known finding "
+       "KF-C09-spurious-wakeup by the two delwait_spurious_* obligations")
 TEXT = ("(i) every EVENT_BASE_ASSERT_LOCKED of event.c/evmap.c holds on all explored paths and the lock monitor never sees an unlock of an "
         "unheld lock, a re-entry or a condition wait without the lock; (ii) whenever a call from a non-owner thread made a callback active, "
         "set a deadline earlier than the loop's current sleep, changed the back end's fd/signal set, removed the last event or asked the "
